@@ -145,7 +145,12 @@ CaseResult run_compressed(const RunCtx &ctx, TapeReader &t, unsigned size_hint) 
     // segments_count() reads levels.back(), which does not exist for a one-segment recursive index (height 1): that call is
     // exercised by the C17 (memory) mode; the search contract of C08 does not need it.
     size_t segs = (ER > 0 && idx->height() == 1) ? 1 : (mem && ER > 0 ? 1 : idx->segments_count());
-    if (mem) (void) idx->segments_count();
+    if (mem) { // C17: every public operation, also on the smallest index
+        volatile size_t sink = idx->segments_count();
+        sink = idx->height();
+        sink = idx->size_in_bytes();
+        (void) sink;
+    }
     if (segs >= 3) res.label("ge3_segments");
     if (idx->height() >= 3) res.label("ge3_levels");
 
@@ -162,6 +167,7 @@ CaseResult run_compressed(const RunCtx &ctx, TapeReader &t, unsigned size_hint) 
     }
     res.sum("queries", st.nq);
     res.nontrivial = segs >= 3 && st.absent >= 1;
+    if (mem) res.nontrivial = keys.size() <= 3 || meta.starts_lowest || meta.top_reached || meta.chunks > 1;
     if (st.gap_after_dup) res.label("nt_gap_after_dup_run");
     if (st.far) res.label("nt_far_query");
     return res;
@@ -287,6 +293,7 @@ CaseResult run_bucketing(const RunCtx &ctx, TapeReader &t, unsigned size_hint) {
     }
     res.sum("queries", st.nq);
     res.nontrivial = segs >= 4 && st.absent >= 1 && empty_bucket && boundary_query;
+    if (mem) res.nontrivial = keys.size() <= 3 || meta.starts_lowest || meta.top_reached || meta.chunks > 1;
     if (empty_bucket) res.label("nt_bucket_without_segment_start");
     if (boundary_query) res.label("nt_query_on_bucket_boundary");
     if (st.gap_after_dup) res.label("nt_gap_after_dup_run");
@@ -365,6 +372,7 @@ CaseResult run_ef(const RunCtx &ctx, TapeReader &t, unsigned size_hint) {
     }
     res.sum("queries", st.nq);
     res.nontrivial = segs >= 4 && st.absent >= 1 && below_first && beyond_universe && between;
+    if (mem) res.nontrivial = keys.size() <= 3 || meta.starts_lowest || meta.top_reached || meta.chunks > 1;
     if (st.gap_after_dup) res.label("nt_gap_after_dup_run");
     if (st.far) res.label("nt_far_query");
     return res;
